@@ -198,6 +198,13 @@ def cbmc_cmd(spec, gb, cover):
     if spec.get('object_bits'):
         cmd += ['--object-bits', str(spec['object_bits'])]
     cmd += BACKENDS[spec.get('backend', 'sat')]
+    if spec.get('functional'):
+        # functional obligations only: memory-safety instrumentation is another harness's subject; slicing keeps what the assertions depend on
+        cmd += ['--slice-formula']
+        if not cover:
+            cmd += ['--no-standard-checks', '--unwinding-assertions']
+    elif spec.get('slice'):
+        cmd += ['--slice-formula']
     cmd += spec.get('cbmc', [])
     if cover:
         cmd += ['--no-standard-checks']
